@@ -1389,7 +1389,7 @@ Qed.
 Theorem F10_truststore_refuted : exists f i l, fx7 f = true /\ fx10 f = false /\ ts_blocks i = [] /\ trust_store f true i = Ok l.
 Proof.
   exists {| fx1 := true; fx2 := true; fx3 := true; fx4 := true; fx5 := true; fx6 := true; fx7 := true; fx8 := true; fx9 := true;
-            fx10 := false; fx18 := true |}, {| ts_blocks := []; ts_trailing := false |}, [].
+            fx10 := false; fx12 := true; fx13 := true; fx18 := true |}, {| ts_blocks := []; ts_trailing := false |}, [].
   splits; reflexivity.
 Qed.
 
@@ -1496,3 +1496,88 @@ Proof. intros. apply fs_run_last_good; auto. Qed.
 
 Theorem request_panic_non_success h k : h = Panicked k -> success (recovery_mw h) = false.
 Proof. exact (proj2 (request_panic_is_non_success h) k). Qed.
+
+(** * Kubernetes provider: updateStatus (C19-F12, C19-F13) *)
+
+(** which try is reached: the tries before it all end in a conflict followed by a successful re-read *)
+Definition retried (t : us_try) : bool :=
+  match t_patch t with PatchStatusErr c => (Z.eqb c 409 || Z.eqb c 422)%bool && t_get_ok t | _ => false end.
+
+Fixpoint guard_F12 (f : fixes) (tries : list us_try) : bool :=
+  match tries with
+  | [] => false
+  | t :: r => if Nat.ltb (t_parts t) 2 then negb (fx12 f)
+              else match t_patch t with PatchOtherErr => false | _ => retried t && guard_F12 f r end
+  end.
+
+Fixpoint guard_F13 (f : fixes) (tries : list us_try) : bool :=
+  match tries with
+  | [] => false
+  | t :: r => if Nat.ltb (t_parts t) 2 && negb (fx12 f) then false
+              else match t_patch t with PatchOtherErr => negb (fx13 f) | _ => retried t && guard_F13 f r end
+  end.
+
+Lemma guard_F12_fixed f tries : fx12 f = true -> guard_F12 f tries = false.
+Proof.
+  intros F. induction tries as [|t r IH]; simpl; [reflexivity|]. rewrite F. simpl.
+  destruct (Nat.ltb (t_parts t) 2); [reflexivity|]. destruct (t_patch t); try reflexivity; rewrite IH; apply andb_false_r.
+Qed.
+
+Lemma guard_F13_fixed f tries : fx13 f = true -> guard_F13 f tries = false.
+Proof.
+  intros F. induction tries as [|t r IH]; simpl; [reflexivity|]. rewrite F. simpl.
+  destruct (Nat.ltb (t_parts t) 2 && negb (fx12 f)); [reflexivity|].
+  destruct (t_patch t); try reflexivity; rewrite IH; apply andb_false_r.
+Qed.
+
+Theorem update_status_panic_iff f tries s :
+  update_status f tries = Panic s <->
+  (s = SActiveIn /\ guard_F12 f tries = true) \/ (s = SStatusErr /\ guard_F13 f tries = true).
+Proof.
+  induction tries as [|t r IH]; simpl.
+  - split; [discriminate|intros [[_ H]|[_ H]]; discriminate].
+  - unfold retried. destruct (Nat.ltb (t_parts t) 2); simpl.
+    + destruct (fx12 f) eqn:F12; simpl.
+      * destruct (t_patch t) as [|c|]; simpl.
+        -- split; [discriminate|intros [[_ H]|[_ H]]; discriminate].
+        -- destruct ((Z.eqb c 409 || Z.eqb c 422)%bool && t_get_ok t); simpl.
+           ++ split.
+              ** intros H. apply bind_panic in H. destruct H as [H|[n [_ H]]]; [|discriminate].
+                 apply IH in H. destruct H as [[-> H]|[-> H]]; [left|right]; auto.
+                 rewrite (guard_F12_fixed f r F12) in H. discriminate.
+              ** intros [[_ H]|[-> H]]; [discriminate|].
+                 assert (E : update_status f r = Panic SStatusErr) by (apply IH; right; auto). rewrite E. reflexivity.
+           ++ split; [discriminate|intros [[_ H]|[_ H]]; discriminate].
+        -- destruct (fx13 f); simpl; split; try discriminate.
+           ++ intros [[_ H]|[_ H]]; discriminate.
+           ++ intros H. inversion H. right. auto.
+           ++ intros [[_ H]|[-> _]]; [discriminate|reflexivity].
+      * split; [intros H; inversion H; left; auto|intros [[-> _]|[_ H]]; [reflexivity|discriminate]].
+    + destruct (t_patch t) as [|c|]; simpl.
+      * split; [discriminate|intros [[_ H]|[_ H]]; discriminate].
+      * destruct ((Z.eqb c 409 || Z.eqb c 422)%bool && t_get_ok t); simpl.
+        -- split.
+           ++ intros H. apply bind_panic in H. destruct H as [H|[n [_ H]]]; [|discriminate]. apply IH. exact H.
+           ++ intros H. apply IH in H. rewrite H. reflexivity.
+        -- split; [discriminate|intros [[_ H]|[_ H]]; discriminate].
+      * destruct (fx13 f); simpl; split; try discriminate.
+        -- intros [[_ H]|[_ H]]; discriminate.
+        -- intros H. inversion H. right. auto.
+        -- intros [[_ H]|[-> _]]; [discriminate|reflexivity].
+Qed.
+
+(** the repaired updateStatus survives every status string, every PatchStatus answer and any number of conflicts *)
+Theorem update_status_total_fixed f tries s : fx12 f = true -> fx13 f = true -> update_status f tries <> Panic s.
+Proof.
+  intros F12 F13 H. apply update_status_panic_iff in H.
+  rewrite (guard_F12_fixed f tries F12), (guard_F13_fixed f tries F13) in H. destruct H as [[_ H]|[_ H]]; discriminate.
+Qed.
+
+Theorem F12_refuted : exists tries, guard_F12 no_fixes tries = true /\ update_status no_fixes tries = Panic SActiveIn.
+Proof. exists [{| t_parts := 1; t_patch := PatchOk; t_get_ok := true |}]. split; reflexivity. Qed.
+
+Theorem F13_refuted : exists tries, guard_F13 no_fixes tries = true /\ update_status no_fixes tries = Panic SStatusErr.
+Proof.
+  exists [{| t_parts := 2; t_patch := PatchStatusErr 409; t_get_ok := true |}; {| t_parts := 2; t_patch := PatchOtherErr; t_get_ok := false |}].
+  split; reflexivity.
+Qed.
